@@ -2,7 +2,7 @@
 From Coq Require Import NArith ZArith List String.
 From BU Require Import Base.Exn Base.Val Base.Bytes Gen.Consts Extract.ApiCommon.
 From BU Require Import Model.Codecs.
-From BU Require Model.IntBytes Model.ConvertBits.
+From BU Require Model.IntBytes Model.ConvertBits Model.Scale.
 Import ListNotations.
 Open Scope string_scope.
 
@@ -59,5 +59,11 @@ Definition api (ask : string -> list val -> val) : list api_entry :=
   (* SS58 *)
   ("ss58_encode", fun a => match a with [VB d; VZ f] => rb (ss58_encode blake d f) | _ => bad_call end);
   ("ss58_decode", fun a => match a with [VB s] =>
-      rmap (fun r => VL [VN (fst r); VB (snd r)]) (ss58_decode blake s) | _ => bad_call end)
+      rmap (fun r => VL [VN (fst r); VB (snd r)]) (ss58_decode blake s) | _ => bad_call end);
+  (* SCALE *)
+  ("scale_uint", fun a => match a with [VN k; VZ v] => rb (scale_uint_encode (N.to_nat k) v) | _ => bad_call end);
+  ("scale_compact", fun a => match a with [VZ v] => rb (scale_compact_encode v) | _ => bad_call end);
+  ("scale_bytes", fun a => match a with [VB b] => rb (scale_bytes_encode b) | _ => bad_call end);
+  ("scale_compact_decode", fun a => match a with [VB b] =>
+      rmap (fun r => VL [VN (fst r); VB (snd r)]) (Scale.compact_decode b) | _ => bad_call end)
 ].
